@@ -95,6 +95,28 @@ func runC02(c *core.Ctx) {
 		for _, o := range p.Dec.Opaque {
 			c.Unknown("C02-SPEC-DEC", key+"#opaque:"+o, "", "construct not understood by the wire-effect extractor: "+o)
 		}
+		// a field that the encoder corrects (a count brought in line with its list, a defaulted counter) must be corrected
+		// before it is written: an assignment after the octets have been emitted leaves the stale value in the image
+		for _, a := range p.Enc.Assigns {
+			var mentions func(ops []*wire.Op) bool
+			mentions = func(ops []*wire.Op) bool {
+				for _, o := range ops {
+					if (!o.Field.IsZero() && o.Field.Equal(a.Field)) || (!o.Count.IsZero() && o.Count.Equal(a.Field)) || (!o.LenField.IsZero() && o.LenField.Equal(a.Field)) {
+						return true
+					}
+					if mentions(o.Body) {
+						return true
+					}
+				}
+				return false
+			}
+			n := a.OpsBefore
+			if n > len(p.Enc.Ops) {
+				n = len(p.Enc.Ops)
+			}
+			c.Decide(!mentions(p.Enc.Ops[:n]), "C02-SPEC", key+"#fixup:"+a.Field.String(), c.Prog.Pos(a.Pos), "the field is assigned before anything that depends on it is written",
+				"IEncode assigns "+a.Field.String()+" after having written it (or a group it governs): the image carries the value the field had before the correction, so a count or length in the image need not match what follows it")
+		}
 		if n := specCompare(c, "C02-SPEC", p, p.Enc.Flat(), sp, true); n == 0 {
 			c.OK("C02-SPEC", key, c.Prog.Pos(p.Enc.Decl.Pos()), fmt.Sprintf("encoder layout equals %s %s (%d fields, %s)", sp.Proto, sp.Name, len(sp.Fields), sp.Source))
 		}
